@@ -348,7 +348,7 @@ class Spectrum(numpy.ma.masked_array):
 
         if foldmaskinfo:
             # Write the mask to the file
-            numpy.savetxt(fid, [numpy.asarray(self.mask, int).ravel()],
+            numpy.savetxt(fid, [numpy.asarray(numpy.ma.getmaskarray(self), int).ravel()],
                           delimiter=' ', fmt='%d')
 
         fid.close()
